@@ -47,6 +47,9 @@ class Node(object):
 
 class Heap(object):
     def __init__(self, n):
+        if n is None:          # before __init__ ran
+            self.end, self.map, self.fresh = None, None, 0
+            return
         self.end = Node('END', [None, None, None])
         self.end.slots[1] = self.end
         self.end.slots[2] = self.end
@@ -101,13 +104,26 @@ class Heap(object):
 class Exec(object):
     '''interpreter of the statement forms OrderedSet uses, over a Heap'''
 
-    def __init__(self, repo, heap):
+    def __init__(self, repo, heap, classes=(TOOLS,)):
         self.repo = repo
         self.heap = heap
         self.depth = 0
+        self.classes = tuple(classes)
+        self.on_yield = None
+        self.touched = set()        # names of the nodes whose slots were read or written
+        self.written = set()        # (node name, slot)
+
+    def method(self, name):
+        for c in self.classes:
+            fn = self.repo.func(c + name, required=False)
+            if fn is not None:
+                return fn
+        return None
 
     def call(self, method, args):
-        fn = self.repo.func(TOOLS + method)
+        fn = self.method(method)
+        if fn is None:
+            raise _Unknown('method %s' % method)
         ps = param_names(fn)
         env = {'self': 'SELF'}
         defaults = fn.args.defaults
@@ -169,8 +185,26 @@ class Exec(object):
         if isinstance(st, ast.Raise):
             raise _Raise()
         if isinstance(st, ast.Expr) and isinstance(st.value, ast.Yield):
-            yielded.append(self.expr(st.value.value, env))
+            v = self.expr(st.value.value, env)
+            yielded.append(v)
+            if self.on_yield is not None:
+                self.on_yield(v)
             return
+        if isinstance(st, ast.AugAssign):
+            if isinstance(st.op, ast.Add) and isinstance(st.target, ast.Name):
+                base = env.get(st.target.id)
+                v = self.expr(st.value, env)
+                if isinstance(base, Node) and not base.slots and isinstance(v, Node):
+                    base.slots = list(v.slots)       # end += [None, end, end]
+                    return
+                if isinstance(base, int) and isinstance(v, int):
+                    env[st.target.id] = base + v
+                    return
+            if isinstance(st.op, ast.BitOr) and isinstance(st.target, ast.Name) and env.get(st.target.id) == 'SELF':
+                for v in self.iterate(st.value, env):     # MutableSet.__ior__: add() every element
+                    self.call('add', [v])
+                return
+            raise _Unknown('statement `%s`' % src(st)[:60])
         if isinstance(st, ast.Expr) and isinstance(st.value, ast.Call):
             self.expr(st.value, env)
             return
@@ -205,6 +239,9 @@ class Exec(object):
         if isinstance(t, ast.Attribute) and isinstance(t.value, ast.Name) and t.value.id == 'self' and t.attr == 'end' and isinstance(v, Node):
             self.heap.end = v
             return
+        if isinstance(t, ast.Attribute) and isinstance(t.value, ast.Name) and t.value.id == 'self' and t.attr == 'map' and isinstance(v, dict):
+            self.heap.map = v
+            return
         if isinstance(t, ast.Subscript):
             if src(t.value) == 'self.map':
                 k = self.expr(t.slice, env)
@@ -214,6 +251,8 @@ class Exec(object):
             idx = self.expr(t.slice, env)
             if isinstance(base, Node) and isinstance(idx, int) and 0 <= idx < 3:
                 base.slots[idx] = v
+                self.touched.add(base.name)
+                self.written.add((base.name, idx))
                 return
         raise _Unknown('store to `%s`' % src(t))
 
@@ -252,14 +291,17 @@ class Exec(object):
             raise _Unknown('self.%s' % e.attr)
         if isinstance(e, (ast.List, ast.Tuple)):
             vals = [self.expr(x, env) for x in e.elts]
-            if isinstance(e, ast.List) and len(vals) == 3:
+            if isinstance(e, ast.List) and len(vals) in (0, 3):
                 H.fresh += 1
                 return Node('NEW%d' % H.fresh, vals)
             return vals
+        if isinstance(e, ast.Dict) and not e.keys:
+            return {}
         if isinstance(e, ast.Subscript):
             base = self.expr(e.value, env)
             idx = self.expr(e.slice, env)
             if isinstance(base, Node) and isinstance(idx, int) and -3 <= idx < 3:
+                self.touched.add(base.name)
                 return base.slots[idx]
             if isinstance(base, dict):
                 if idx not in base:
@@ -304,8 +346,16 @@ class Exec(object):
                 if f.attr == 'get' and len(args) in (1, 2):
                     return H.map.get(*args)
             if isinstance(f, ast.Attribute) and isinstance(f.value, ast.Name) and f.value.id == 'self':
-                if self.repo.func(TOOLS + f.attr, required=False) is not None:
+                if self.method(f.attr) is not None:
                     return self.call(f.attr, args)
+            if isinstance(f, ast.Name) and f.id in ('iter', 'reversed') and len(args) == 1 and args[0] == 'SELF':
+                return self.call('__iter__' if f.id == 'iter' else '__reversed__', [])
+            if isinstance(f, ast.Name) and f.id == 'next' and len(args) == 1 and isinstance(args[0], list):
+                if not args[0]:
+                    raise _Raise()
+                return args[0][0]
+            if isinstance(f, ast.Name) and f.id in ('dict', 'list') and not args:
+                return {} if f.id == 'dict' else []
             if isinstance(f, ast.Name) and f.id == 'len' and len(args) == 1:
                 if args[0] == 'SELF' or isinstance(args[0], dict):
                     return len(H.map)
